@@ -22,6 +22,20 @@ impl Clock {
         (clock, mock)
     }
 
+    #[cfg(mini_moka_verif)]
+    pub(crate) fn verif_mock() -> (Clock, Arc<Mock>) {
+        let mock = Arc::new(Mock::default());
+        let clock = Clock {
+            mock: Some(Arc::clone(&mock)),
+        };
+        (clock, mock)
+    }
+
+    #[cfg(mini_moka_verif)]
+    pub(crate) fn verif_from_mock(mock: Arc<Mock>) -> Clock {
+        Clock { mock: Some(mock) }
+    }
+
     pub(crate) fn now(&self) -> Instant {
         if let Some(mock) = &self.mock {
             *mock.now.read().expect("lock poisoned")
@@ -47,5 +61,16 @@ impl Default for Mock {
 impl Mock {
     pub(crate) fn increment(&self, amount: Duration) {
         *self.now.write().expect("lock poisoned") += amount;
+    }
+}
+
+#[cfg(mini_moka_verif)]
+impl Mock {
+    pub(crate) fn verif_increment(&self, amount: std::time::Duration) {
+        *self.now.write().expect("lock poisoned") += amount;
+    }
+
+    pub(crate) fn verif_now(&self) -> Instant {
+        *self.now.read().expect("lock poisoned")
     }
 }
